@@ -538,3 +538,24 @@ pub(crate) fn l1_prot_null() {
     }
     vcover!("l1_prot_null_end");
 }
+
+// ------------------------------------------------------------------------------------------------
+/// Contract of `HybridProtection::attempt` as a caller may rely on it (proved by l1_attempt and
+/// rg_attempt_lin): the value the storage held at an instant during the call, protected. The stub
+/// returns the counted outcome (the borrowing outcome differs only in a debt slot, which the
+/// callers that use this stub – compare_and_swap's retry loop – never look at). Other writers act
+/// through `ATTEMPT_ENV` right before the instant.
+pub(crate) static mut ATTEMPT_ENV: Option<fn()> = None;
+pub(crate) static mut ATTEMPT_CALLS: usize = 0;
+pub(crate) fn attempt_contract<T: RefCnt>(_node: &LocalNode, storage: &AtomicPtr<T::Base>) -> Option<HybridProtection<T>> {
+    unsafe {
+        ATTEMPT_CALLS += 1;
+        if let Some(f) = ATTEMPT_ENV {
+            f();
+        }
+    }
+    let p = storage.raw().load(SeqCst);
+    let r = unsafe { HybridProtection::<T>::new(p, None) };
+    unsafe { T::inc(&r.ptr) };
+    Some(r)
+}
